@@ -26,9 +26,11 @@ class CellTranslator(AbstractTranslator):
             if isinstance(cell.value, str) and cell.value.find('=') == 0:
                 from excel2pycl.src.ast_builder import AstBuilder
                 from excel2pycl.src.lexer import Lexer
+                cell_in_progress = context.start_cell_translation(cell)
                 lexer = Lexer.parse(cell.value, in_cell=cell)
                 ast = AstBuilder.parse(lexer, in_cell=cell)
                 code = EntryPointTokenTranslator.translate(ast, excel, context)
+                context.finish_cell_translation(cell_in_progress)
             else:
                 code = repr(cell.value) if cell.value is not None else 'self.EmptyCell()'
             context.set_cell(cell, code)
